@@ -230,6 +230,14 @@ func (x *Exec) VerifyFunction(fn *ssa.Function, c *Contract) {
 	// a guard whose callee pattern matched no call on any path guards nothing: report it as a
 	// failed obligation instead of silently proving nothing
 	if c != nil && !x.inTwin {
+		for _, cl := range c.Of("guard_if_called") {
+			// a clause about a callee today's code never calls holds trivially; the obligation
+			// keeps its name so that the ledger knows it and a later caller is checked against it
+			lbl := labelOr(cl, mangle(cl.Args[0]))
+			if x.guardHits[lbl] == 0 {
+				x.Obls = append(x.Obls, &Obligation{Name: x.TopName + "#F6.guard." + lbl, Family: "F6", Func: x.TopName, Goal: TTrue, Pos: "?", Trace: []string{"callee " + cl.Args[0] + " is not called on any explored path"}})
+			}
+		}
 		for _, cl := range c.Of("guard") {
 			lbl := labelOr(cl, mangle(cl.Args[0]))
 			if x.guardHits[lbl] == 0 {
